@@ -81,12 +81,12 @@ pub fn grammar(rng: &mut Rng, idx: u64) -> GCase {
     match rng.below(10) {
         0..=2 => {
             let gen = RxGen { allow_algebra: false, allow_raw_not: false, max_depth: 3 };
-            let rx = gen.gen(rng);
+            let rx = gen_nonempty(rng, &gen);
             GCase::regex(&format!("genrx{idx}"), &rx.to_regex()).tag("gen_regex")
         }
         3..=4 => {
             let gen = RxGen { allow_algebra: true, allow_raw_not: false, max_depth: 3 };
-            let rx = gen.gen(rng);
+            let rx = gen_nonempty(rng, &gen);
             let t = rx.to_lark_term(rng);
             GCase::lark(&format!("genterm{idx}"), &format!("start: T\nT: {t}\n")).tag("gen_term")
         }
@@ -102,4 +102,17 @@ pub fn n_corpus() -> u64 {
 pub fn describe(ctx: &Ctx, g: &GCase, v: &Vocab) -> serde_json::Value {
     let _ = ctx;
     serde_json::json!({"grammar_kind": format!("{:?}", g.kind), "grammar": g.text, "name": g.name, "tags": g.tags, "vocab": v.name, "n_vocab": v.n()})
+}
+
+/// regex whose language is non-empty according to the reference DFA (productive grammar)
+pub fn gen_nonempty(rng: &mut Rng, gen: &RxGen) -> crate::gen_regex::Rx {
+    for _ in 0..20 {
+        let rx = gen.gen(rng);
+        if let Ok(d) = crate::ref_dfa::Dfa::from_rx(&rx) {
+            if d.is_live(d.start) {
+                return rx;
+            }
+        }
+    }
+    crate::gen_regex::Rx::lit("fallback")
 }
